@@ -151,6 +151,11 @@ fn main() {
                 }
             }
         }
+        "list-contexts" => {
+            let (v, capped) = progen::in_contexts(args.get(3).and_then(|s| s.parse().ok()).unwrap_or(2), 10_000_000);
+            println!("total {} capped {}", v.len(), capped);
+            for p in v.iter().filter(|p| p.contains(args[2].as_str())).take(60) { println!("{}", p); }
+        }
         "gen-counts" => {
             let n: usize = args.get(2).and_then(|s| s.parse().ok()).unwrap_or(3);
             println!("{:?}", progen::counts(n));
